@@ -144,6 +144,13 @@ def step (w : World) (line : String) : World × String :=
     | some n, some pw, some salt, some count =>
       (w, s!"out={toHex (pbkdf2 n pw salt count)} slack=ok inputs=ok")
     | _, _, _, _ => bad
+  | ["pbkdf2.tail", n, pw, salt, count, k] =>
+    match n.toNat?, parseHex pw, parseHex salt, count.toNat?, k.toNat? with
+    | some n, some pw, some salt, some count, some k =>
+      let out := pbkdf2 n pw salt count
+      let h : UInt64 := out.foldl (fun h b => (h ^^^ b.toUInt64) * 1099511628211) 1469598103934665603
+      (w, s!"tail={toHex (out.drop (n - k))} sum={h.toNat} slack=ok inputs=ok")
+    | _, _, _, _, _ => bad
   | ["clean", off, n, buf] =>
     match off.toNat?, n.toNat?, parseHex buf with
     | some off, some n, some buf => (w, s!"out={toHex (cleanAt buf off n)}")
